@@ -26,19 +26,45 @@ def oracle(progs: Sequence[Dict[str, Any]], module: str = "Eval_Djc", workers: i
     # stays far below the TLC timeout whatever the batch size
     size = max(50, min(300, -(-len(progs) // nshards)))
     shards = [progs[i:i + size] for i in range(0, len(progs), size)]
-    stats = {"states": 0}
+    stats = {"states": 0, "timeouts": 0}
 
-    def one(k):
-        fin, fout = w / f"in{k}.ndjson", w / f"out{k}.ndjson"
-        tlc.write_ndjson(fin, shards[k])
-        r = tlc.run(module, f"{module}.cfg", env={"IN": str(fin), "OUT": str(fout)}, workers=1, heap="3g")
-        tlc.require_ok(r, f"{module} shard {k}")
+    def evaluate(tag: str, part) -> Any:
+        """One TLC run over `part`.  The evaluation of a rare program is pathologically slow (minutes; the same
+        spec evaluates the others in milliseconds): on a timeout the part is split, and a single program that
+        still exceeds the budget is returned as an (unspecified) zone and counted - never guessed."""
+        fin, fout = w / f"in{tag}.ndjson", w / f"out{tag}.ndjson"
+        tlc.write_ndjson(fin, part)
+        try:
+            r = tlc.run(module, f"{module}.cfg", env={"IN": str(fin), "OUT": str(fout)}, workers=1, heap="3g",
+                        timeout=150 if len(part) == 1 else 420)
+        except MachineryError as e:
+            if "timeout" not in str(e):
+                raise
+            for f in (fin, fout):
+                if f.exists():
+                    f.unlink()
+            if len(part) == 1:
+                stats["timeouts"] += 1
+                return [{"id": part[0]["id"], "out": [], "err": "", "errs": [], "zone": True, "insts": [], "tops": [],
+                         "elems": [], "marks": [], "deps": {"ijs": [], "icss": [], "mjs": [], "mcss": []},
+                         "oracle_timeout": True}], 0
+            rows, st = [], 0
+            q = max(1, len(part) // 4)
+            for j in range(0, len(part), q):
+                r2, s2 = evaluate(f"{tag}_{j}", part[j:j + q])
+                rows += r2
+                st += s2
+            return rows, st
+        tlc.require_ok(r, f"{module} shard {tag}")
         rows = tlc.read_ndjson(fout)
-        if len(rows) != len(shards[k]):
-            raise MachineryError(f"oracle returned {len(rows)} results for {len(shards[k])} programs")
+        if len(rows) != len(part):
+            raise MachineryError(f"oracle returned {len(rows)} results for {len(part)} programs")
         fin.unlink()
         fout.unlink()
         return rows, r.distinct
+
+    def one(k):
+        return evaluate(str(k), shards[k])
 
     out: Dict[int, Dict[str, Any]] = {}
     with cf.ThreadPoolExecutor(max_workers=nshards) as ex:
@@ -47,10 +73,12 @@ def oracle(progs: Sequence[Dict[str, Any]], module: str = "Eval_Djc", workers: i
             for row in rows:
                 out[row["id"]] = row
     oracle.last_states = stats["states"]
+    oracle.timeouts += stats["timeouts"]
     return out
 
 
 oracle.last_states = 0
+oracle.timeouts = 0          # programs skipped because their TLC evaluation exceeded the budget (whole process)
 
 
 def _real_one(prog):
